@@ -16,6 +16,7 @@ def af(name, **kw):
     return d
 ST = ['heap_manager__incMemUsed', 'heap_manager__decMemUsed', 'heap_manager__incMemAlloc', 'heap_manager__decMemAlloc', 'heap_manager__setChunkBase']
 HP = ['heap_manager__removeHeapNode', 'heap_manager__upHeap', 'heap_manager__findNodeAtPosition']
+RQ = ['heap_manager__removeLastHeapNode', 'heap_manager__downHeap', 'heap_manager__allocateFromArray']
 UNIT = {
     'name': 'mmheap',
     'typedefs': [('src/defines.h', 'node_address')],
@@ -44,12 +45,15 @@ UNIT = {
         dict(cls='heap_manager', name='removeHeapNode', argc=1, cname='heap_manager__removeHeapNode'),
         dict(cls='heap_manager', name='upHeap', argc=1, cname='heap_manager__upHeap'),
         dict(cls='heap_manager', name='findNodeAtPosition', argc=1, cname='heap_manager__findNodeAtPosition'),
+        dict(cls='heap_manager', name='removeLastHeapNode', argc=0, cname='heap_manager__removeLastHeapNode'),
+        dict(cls='heap_manager', name='downHeap', argc=1, cname='heap_manager__downHeap'),
+        dict(cls='heap_manager', name='allocateFromArray', argc=1, cname='heap_manager__allocateFromArray'),
     ],
     'functions': [
         hf('isHole'), hf('getHoleSize'), hf('setHoleSize'), hf('readSlot'), hf('refSlot'), hf('recycleHoleInArray'),
         af('smallestChunk', static=True), af('isSmallHole'), af('Left'), af('Right'), af('zeroPointers'), af('makeRoot'), af('setLeft'), af('setRight'),
         af('incHeapNodes'), af('incHeapSlots'), af('incSmallSlots'), af('decSmallSlots'),
-        af('recycleChunk', where='out'),
+        af('recycleChunk', where='out'), af('requestChunk', where='out'), af('decHeapNodes'), af('decHeapSlots'), af('Parent'),
     ],
     'stubs': [
         'heap_manager::removeHeapNode / upHeap / findNodeAtPosition: the binary heap of tracked holes. Assumed: they write only pointer slots 1..3 inside tracked holes and heap_root / counters, never a boundary tag, never a slot of a live chunk',
@@ -61,6 +65,7 @@ UNIT = {
     ],
     'unverified_surroundings': {'C18': ['heap_manager.cc requestChunk, removeHeapNode, upHeap, downHeap, findNodeAtPosition'], 'C12': ['heap_manager.cc requestChunk and heap maintenance', 'orig_grid.cc, malloc_style.cc']},
     'jobs': [
+        job('heap_requestChunk', 'heap_manager__requestChunk', ST + RQ, tier='thorough', timeout=7200),
         job('heap_recycleChunk', 'heap_manager__recycleChunk', ST + HP, tier='thorough', timeout=7200),    # ~10 min: thorough tier only
     ],
 }
